@@ -335,7 +335,7 @@ theorem SC.rewired {v w' : World} (hs : SC v)
     have hgo := hs.groupOK hx
     unfold GroupOK groupIn groupOut groupPaths at hgo ⊢
     simp only [hk, hg, hgr, hlen]
-    refine ⟨hgo.1, hgo.2.1, fun hgi => hup x (Or.inr (by rw [hk]; exact hgi))⟩
+    refine ⟨hgo.1, fun hgi => hup x (Or.inr (by rw [hk]; exact hgi))⟩
   · -- maintenance targets
     have hmem : t.dev ∈ w'.targets.map (·.dev) := List.mem_map.mpr ⟨t, ht, rfl⟩
     rw [htg] at hmem
